@@ -854,7 +854,8 @@ def _get_charno(source: str, lineno: int, col_offset: int) -> int:
     """Character number of the position (lineno, col_offset) of an ast node in source.
 
     The col_offset of an ast node counts utf-8 bytes, not characters."""
-    charno = _get_line_start_charnos(source)[lineno - 1]
+    # Rules place nodes that are to be inserted before the first line on line 0
+    charno = _get_line_start_charnos(source)[max(lineno - 1, 0)]
     if source.isascii() or col_offset <= 0:
         return charno + col_offset
 
